@@ -273,7 +273,9 @@ def gen_tree(rng, k, force=None):
     toks.append(L(rng.choice(["f_", "MHS.", "", "a-b_"])))
     sep = rng.choice(["T", "_", ""])
     toks += [T(f) for f in date] + ([L(sep)] if sub and date else []) + [T(f) for f in sub]
-    if ends:
+    if ends == "partial":          # directed cases only: the end is written with its sub-day fields alone
+        toks += [L("-")] + [T(f, True) for f in sub]
+    elif ends:
         toks += [L("-")] + [T(f, True) for f in date] + ([L(sep)] if sub else []) + [T(f, True) for f in sub]
     if sat_in_name:
         toks += [L("_"), ("u", "sat")]
@@ -372,6 +374,33 @@ def nested_tree(rng, k):
     tree["queries"] = [{"label": "after-the-long-file", "t": tc + (L_ + d) * r, "filters": None, "xnames": [], "xtimes": [],
                         "as_str": False} for d in (1, 2, 3)]
     return tree
+
+
+def partial_end_trees(rng, k0):
+    """Directed trees every run contains whatever the seed: the end of the coverage is written with hour and minute (and
+    second) only; one file wraps past midnight (its end parses EARLIER than its start and is rolled by a day), a short
+    file follows it closely.  Timestamps in the wrapped part are covered by the wrapping file; a roll-over by less than a
+    day would make the later file the nearest one."""
+    out = []
+    for j, (kind, res) in enumerate([("flat", "minute"), ("Y/M", "minute"), ("Y/M/D", "second"), ("Y", "minute")]):
+        tree = gen_tree(rng, k0 + j, force={"kind": kind, "res": res, "ends": "partial", "sat": False})
+        r = RES[res]
+        day0 = (tree["centre"] // DAY) * DAY + (0 if kind != "Y/M/D" else 0)
+        spans = [(day0 + 23 * HOUR + 30 * MINUTE, day0 + DAY + 30 * MINUTE),          # wraps past midnight
+                 (day0 + DAY + 40 * MINUTE, day0 + DAY + 60 * MINUTE),                # the close later file
+                 (day0 + 20 * HOUR, day0 + 21 * HOUR)]
+        files, names = [], set()
+        for t0, t1 in spans:
+            name = own_render(tree["tokens"], of_us(t0), of_us(t1), None)
+            if name not in names:
+                names.add(name)
+                files.append({"name": name, "t0": t0, "t1": t1, "sat": None})
+        tree["files"], tree["vanished"], tree["ends"] = files, [], True
+        tree["queries"] = [{"label": "partial-end-" + lab, "t": t, "filters": None, "xnames": [], "xtimes": [], "as_str": False}
+                           for lab, t in (("wrapped", day0 + DAY + 10 * MINUTE), ("wrapped-end", day0 + DAY + 30 * MINUTE),
+                                          ("before-midnight", day0 + 23 * HOUR + 50 * MINUTE), ("gap", day0 + DAY + 35 * MINUTE))]
+        out.append(tree)
+    return out
 
 
 EDGE_TEMPLATES = [   # (layout, resolution of the names, a time B that starts a directory of the finest level)
@@ -821,7 +850,12 @@ def judge(ctx, rec, report=True):
         if chosen != exp:
             return ("correspondence", "directed-expectation", f"a directed case expects {exp}, the model answers {chosen}: "
                     + where)
-    in_hyp = rec["hyp"] and rec["times_ok"]
+    # the coverages the checker judges with are the ones the names spell out under the template (what C02's round-trip
+    # theorems prescribe for the three end spellings generated here); when get_info parses OTHER coverages and the answer is
+    # wrong for the spelled-out ones, the timestamp is a failing input of this property all the same (the remark says so)
+    in_hyp = rec["hyp"]
+    if not rec["times_ok"]:
+        where += f"; NOTE get_info parses coverages {rec['parsed']} that differ from the ones the names spell out"
     if rec["impl"].startswith("ERR:"):
         return ("failing-input" if in_hyp else "correspondence", "closest-error",
                 f"{rec['impl']} instead of a file or NoFilesError/None: " + where)
@@ -927,6 +961,7 @@ def run(ctx):
         if t is not None:
             trees.append(t)
     trees += edge_trees(drng, nt + 100)
+    trees += partial_end_trees(drng, nt + 300)
     singles = [gen_single(ctx.rng, k) for k in range(ctx.n(12, 120))]
     records = evaluate(ctx, trees)
     nontrivial, first, classes, seen_sig = set(), {}, {}, {}
